@@ -154,6 +154,7 @@ def run(ctx):
         if len(samples) < 2:
             samples.append({"graph": {k: g[k] for k in ("nodes", "bound", "entrypoints", "selected")}, "reported": spec})
         i += 1
+    n_eval += nested_part(ctx, dist, nontrivial)
     res = batch.run()
     if res["error"]:
         ctx.violation("harness", res["error"])
@@ -163,9 +164,93 @@ def run(ctx):
         evaluations=n_eval, coq_checks=res["n"], distinct_nontrivial=len(nontrivial),
         rule="dag / gated / emit / loop (L1, L2) / multi-entry cyclic programs x bind x with_entrypoint x select; for each: the full input "
              "set per listed entry point, and every single omitted required input, on both runners with an event processor attached; "
+             "plus (oracle only) DAGs with groups wrapped into nested graphs to depth 1-2: inner bindings, a sibling sharing an inner-bound name, "
+             "wrapper inputs renamed before / after the wrapper object was used, selections leaving the nested graph out of scope; "
              "non-trivial = >=3 nodes and at least one of bind/entrypoint/select/cycle in play",
         distribution=dist, samples=samples, traces_validated_against_impl=n_eval, disagreements_checked=res["n"])
     ctx.assumptions += ["calls supply graph inputs only (internal overrides and bound output names are outside this check; see known findings)"]
+
+
+def nested_part(ctx, dist, nontrivial):
+    """The same contract for graphs that contain nested graphs (oracle only): bindings on inner graphs, wrapper inputs
+    renamed after the wrapper object was already used, a selection that leaves the nested graph out of scope, and a
+    sibling node sharing a parameter name with the inner graph."""
+    from harness.props import c05
+    rng = ctx.rng
+    n_eval = 0
+    for _ in range(ctx.n(120, 1500)):
+        g0 = gen.gen_dag(rng, max_nodes=6, edge_defaults=0.0, emits=0.0)
+        for n in g0["nodes"]:
+            n["defaults"] = {}
+        try:
+            spec0 = real_spec(engine.real_input_spec(g0))
+        except Exception:  # noqa: BLE001
+            continue
+        g0["bound"] = {x: 30 + k for k, x in enumerate(spec0["required"]) if rng.random() < 0.35}
+        g, _info = c05.wrap_levels(rng, g0, rng.choice([1, 1, 2]))
+        # a sibling that shares a (possibly inner-bound) parameter name with the nested graph
+        inner_bound = [k for n in g["nodes"] if n["kind"] == "graph" for k in n["graph"].get("bound", {})]
+        if inner_bound and rng.random() < 0.6:
+            p = rng.choice(inner_bound)
+            g["nodes"].append({"name": "sib", "kind": "func", "inputs": [p], "outputs": ["sib_out"], "emit": [], "wait_for": [], "defaults": {}, "fn": ["sym", "sib"]})
+        ren = c05.rename_wrapper_inputs(rng, g) if rng.random() < 0.5 else {}
+        g["bound"] = {ren.get(k, k): v for k, v in g.get("bound", {}).items()}
+        outs = [o for nn in g["nodes"] for o in gen.iface(nn)[1]]
+        if outs and rng.random() < 0.5:
+            g["selected"] = rng.sample(outs, rng.randint(1, min(2, len(outs))))
+        try:
+            G = engine.real_input_spec(g)
+        except Exception:  # noqa: BLE001
+            continue
+        spec = real_spec(G)
+        case = {"graph": g}
+        dist["nested"] = dist.get("nested", 0) + 1
+        R, O = set(spec["required"]), set(spec["optional"])
+        if R & O:
+            ctx.violation("oracle", f"required and optional overlap: {sorted(R & O)}", case=case, observed=spec)
+        for x in spec["bound"]:
+            if x in R:
+                ctx.violation("oracle", f"bound name {x!r} is reported as required", case=case, observed=spec)
+        # the same description built with every wrapper object used (read, placed in a graph, executed) before it is renamed
+        for touch in (False, True):
+            h = copy.deepcopy(g)
+            for n in h["nodes"]:
+                if n["kind"] == "graph":
+                    n["touch"] = touch
+            try:
+                sp = real_spec(engine.real_input_spec(h))
+            except Exception as e:  # noqa: BLE001
+                ctx.violation("oracle", f"the graph is accepted or rejected depending on whether its wrapper objects were used before being renamed: {e}", case={"graph": h})
+                continue
+            if (sorted(sp["required"]), sorted(sp["optional"])) != (sorted(spec["required"]), sorted(spec["optional"])) and h != g:
+                ctx.violation("oracle", f"the reported spec depends on whether the wrapper objects were used before being renamed: "
+                              f"{sp['required']}/{sp['optional']} vs {spec['required']}/{spec['optional']}", case={"graph": h}, observed=sp)
+        inputs = {x: rng.randint(0, 3) for x in spec["required"]}
+        runner = rng.choice(["sync", "async"])
+        kind, obs = attempt(g, inputs, runner)
+        n_eval += 1
+        if kind != "accepted":
+            ctx.violation("oracle", f"all required inputs supplied, yet the call is rejected: {obs.get('error_repr')}", case={"graph": g, "run": {"inputs": inputs}}, observed=spec)
+        else:
+            want = g.get("selected")
+            if want is None:
+                want = [o for nn in g["nodes"] for o in gen.iface(nn)[1]]
+            missing = [o for o in want if o not in obs["values"]]
+            if obs["status"] != "completed" or missing:
+                ctx.violation("oracle", f"all required inputs supplied, but something else was needed: status {obs['status']}, requested outputs not produced: {missing} "
+                              f"({obs.get('error_repr')})", case={"graph": g, "run": {"inputs": inputs}}, observed=spec)
+        for x in spec["required"]:
+            less = {k: v for k, v in inputs.items() if k != x}
+            kind2, obs2 = attempt(g, less, runner)
+            n_eval += 1
+            if kind2 != "missing":
+                ctx.violation("oracle", f"required input {x!r} omitted but the call was {kind2} ({obs2.get('error_repr')})",
+                              case={"graph": g, "run": {"inputs": less, "omitted": x}}, observed=spec)
+            if obs2["log"] or obs2.get("events") or obs2.get("shutdowns"):
+                ctx.violation("oracle", f"rejected call (omitted {x!r}) still invoked {len(obs2['log'])} node function(s) / delivered {len(obs2.get('events', []))} event(s)",
+                              case={"graph": g, "run": {"inputs": less, "omitted": x}})
+        nontrivial.add(canon({"nested": g["nodes"], "b": g.get("bound"), "s": g.get("selected")}))
+    return n_eval
 
 
 def cycle_groups(g, entry):
